@@ -19,10 +19,29 @@
 (*         "request", "ignore"                                              *)
 (*   cls   what the Signing service behind it does: "ok" (replies with      *)
 (*         Len(certs) certificates), "rpc" (status error `code`),           *)
-(*         "unparsable", "empty" (key material), "deadline" (never answers) *)
+(*         "unparsable", "empty" (key material), "deadline" (never answers),*)
+(*         "refused" (nothing listens: the connection attempt is refused),  *)
+(*         "acceptclose" (the connection is accepted and closed at once):   *)
+(*         the last two are dead at transport level, no RPC ever arrives    *)
 (*   certs, cm   the certificates of an "ok" reply, in the CA's order, and  *)
 (*         the comment the CA attached to each (possibly empty)             *)
-(* Actions: Construct (NewSigner), Contact (one loop iteration of Sign: the  *)
+(* The environment of a case (variable env):                               *)
+(*   ctx   budget of the request context handed to Sign: "wide" (longer     *)
+(*         than anything an endpoint can consume) or "tight" (shorter than  *)
+(*         one per-try timeout; only explored when no endpoint is of class  *)
+(*         "deadline", i.e. when every failing endpoint fails fast)         *)
+(*   hist  what ELSE happens to TLS configuration in the same process:      *)
+(*         "none"; "before"/"between" (another client configuration is      *)
+(*         built from the CA files NOT in this signer's bundle, before the  *)
+(*         signer is constructed / between construction and Sign);          *)
+(*         "signer" (a second Signer with those files is constructed        *)
+(*         first); "rotate" (the bundle's file paths first held those other *)
+(*         CAs and were loaded by another configuration, then got their     *)
+(*         proper content before the signer is constructed)                 *)
+(*   loaded  history variable: CA names any TLS configuration of the        *)
+(*         process has read so far.  The design and the properties do not   *)
+(*         depend on it - that is the point (history independence).         *)
+(* Actions: OtherConf (the history step), Construct (NewSigner), Contact (one loop iteration of Sign: the  *)
 (* next endpoint is dialled and asked), Return (Sign returns), Backoff (one  *)
 (* evaluation of the delay function over all its jitter draws).             *)
 (*                                                                         *)
@@ -35,18 +54,21 @@ EXTENDS Integers, Sequences, FiniteSets, TLC
 CONSTANTS MaxN,         \* longest endpoint list explored
           Templates,    \* endpoint descriptors explored (records without certs/cm, with comment shapes sh)
           Bundles,      \* CA bundle variants explored: records [cas |-> set of CA names, lay |-> file layout]
+          Ctxs,         \* request-context budgets explored: subset of {"wide", "tight"}
+          Hists,        \* process histories explored: subset of {"none", "before", "between", "signer", "rotate"}
           BackoffCfgs,  \* backoff configurations explored: records [base, max, mult, jit] (jit in tenths)
           Attempts      \* attempt numbers explored by the backoff walk
 
 VARIABLES eps,        \* configured endpoints (sequence of descriptors), fixed per case
           bundle,     \* configured CA bundle, fixed per case
+          env,        \* [ctx, hist, loaded, hdone]: request budget, process history (see above)
           pc,         \* "new" | "loop" | "returned" | "refused" | "bo" | "trace"
           i,          \* index of the endpoint the loop tries next
           contacted,  \* endpoint indices contacted so far, in order of arrival at the servers
           result,     \* what the loop holds: [done, err, certs, cm]
           last        \* label of the last step (operation and what was observed)
 
-vars == <<eps, bundle, pc, i, contacted, result, last>>
+vars == <<eps, bundle, env, pc, i, contacted, result, last>>
 
 ---------------------------------------------------------------------------
 \* numbers of the delay function: nanoseconds split so that TLC's 32-bit integers suffice
@@ -55,7 +77,7 @@ Val(x)   == [neg |-> x < 0, big |-> FALSE, hi |-> 0, lo |-> IF x < 0 THEN 0 - x 
 VLe(a,b) == a.neg \/ (~b.neg /\ ~a.big /\ (b.big \/ a.hi < b.hi \/ (a.hi = b.hi /\ a.lo <= b.lo)))
 NoBo     == [att0 |-> FALSE, base |-> Val(0), min |-> Val(0), max |-> Val(0), bound |-> Val(0)]
 
-NoLbl == [op |-> "init", ep |-> 0, hs |-> "none", ver |-> "none", cc |-> "none", rpc |-> FALSE, same |-> TRUE,
+NoLbl == [op |-> "init", hang |-> FALSE, ep |-> 0, hs |-> "none", ver |-> "none", cc |-> "none", rpc |-> FALSE, same |-> TRUE,
           err |-> FALSE, pan |-> FALSE, certs |-> <<>>, cm |-> <<>>, bo |-> NoBo]
 
 ---------------------------------------------------------------------------
@@ -89,20 +111,35 @@ Inst(t, m) == [id |-> t.id, vmax |-> t.vmax, pol |-> t.pol, cls |-> t.cls, code 
                certs |-> [j \in 1..Len(t.sh) |-> "c" \o ToString(m) \o "_" \o ToString(j)],
                cm    |-> [j \in 1..Len(t.sh) |-> IF t.sh[j] = "none" THEN "" ELSE t.sh[j] \o ToString(m) \o "_" \o ToString(j)]]
 
+AllCAs    == {"ca1", "ca2", "caX"}
+Others(b) == AllCAs \ b.cas                        \* the CA files a history step loads: everything this signer must NOT trust
+NoEnv     == [ctx |-> "wide", hist |-> "none", loaded |-> {}, hdone |-> TRUE]
 InitCase == /\ bundle \in Bundles
+            /\ \E c \in Ctxs : \E h \in Hists : env = [ctx |-> c, hist |-> h, loaded |-> {}, hdone |-> h = "none"]
             /\ \E n \in 0..MaxN : \E ts \in [1..n -> Templates] : eps = [m \in 1..n |-> Inst(ts[m], m)]
+            /\ env.ctx = "tight" => (env.hist = "none" /\ \A m \in 1..Len(eps) : eps[m].cls # "deadline")
             /\ pc = "new" /\ i = 1 /\ contacted = <<>> /\ result = Pending /\ last = NoLbl
-InitBo   == /\ BackoffCfgs # {} /\ bundle = [cas |-> {}, lay |-> "none"] /\ eps = <<>> /\ pc = "bo" /\ i = 1
+InitBo   == /\ BackoffCfgs # {} /\ bundle = [cas |-> {}, lay |-> "none"] /\ env = NoEnv /\ eps = <<>> /\ pc = "bo" /\ i = 1
             /\ contacted = <<>> /\ result = Pending /\ last = NoLbl
 Init == InitCase \/ InitBo
 
+\* the history step: some other TLS configuration of the process reads the other CA files
+OtherConf == /\ ~env.hdone
+             /\ \/ env.hist \in {"before", "signer", "rotate"} /\ pc = "new"
+                \/ env.hist = "between" /\ pc = "loop" /\ contacted = <<>>
+             /\ env' = [env EXCEPT !.hdone = TRUE, !.loaded = @ \cup Others(bundle)]
+             /\ last' = [NoLbl EXCEPT !.op = "otherconf"]
+             /\ UNCHANGED <<eps, bundle, pc, i, contacted, result>>
+
 \* NewSigner: may refuse a configuration without endpoints (then no signing call exists), never another one
-Construct == /\ pc = "new"
+Construct == /\ pc = "new" /\ (env.hdone \/ env.hist = "between")
              /\ \/ pc' = "loop" /\ last' = [NoLbl EXCEPT !.op = "construct"]
                 \/ Len(eps) = 0 /\ pc' = "refused" /\ last' = [NoLbl EXCEPT !.op = "construct", !.err = TRUE]
+             /\ env' = [env EXCEPT !.loaded = @ \cup bundle.cas]
              /\ UNCHANGED <<eps, bundle, i, contacted, result>>
 
-Contact == /\ pc = "loop" /\ ~result.done /\ i <= Len(eps)
+Dead(e) == e.cls \in {"refused", "acceptclose"}      \* dead at transport level
+Contact == /\ pc = "loop" /\ ~result.done /\ i <= Len(eps) /\ env.hdone
            /\ LET e  == eps[i]
                   hs == Handshake(e, bundle)
                   ok == hs /\ e.cls = "ok"
@@ -114,13 +151,13 @@ Contact == /\ pc = "loop" /\ ~result.done /\ i <= Len(eps)
                                 !.hs  = IF e.id = "plain" THEN "none" ELSE IF hs THEN "ok" ELSE "fail",
                                 !.ver = IF e.id = "plain" \/ ~hs THEN "none" ELSE IF 13 \in Negotiated(e) THEN "tls13" ELSE "tls12",
                                 !.cc  = IF e.id # "plain" /\ hs /\ e.pol \in {"require", "request"} THEN "configured" ELSE "none",
-                                !.rpc = hs]
-           /\ UNCHANGED <<eps, bundle, pc>>
+                                !.rpc = hs /\ ~Dead(e)]
+           /\ UNCHANGED <<eps, bundle, env, pc>>
 
-Return == /\ pc = "loop" /\ (result.done \/ i > Len(eps))
+Return == /\ pc = "loop" /\ (result.done \/ i > Len(eps)) /\ env.hdone
           /\ pc' = "returned"
           /\ last' = [NoLbl EXCEPT !.op = "return", !.err = result.err, !.certs = result.certs, !.cm = result.cm]
-          /\ UNCHANGED <<eps, bundle, i, contacted, result>>
+          /\ UNCHANGED <<eps, bundle, env, i, contacted, result>>
 
 \* the delay function: exponential in the attempt, capped, then jittered; attempt 0 = the base delay.
 \* Model arithmetic in tenths of a unit (jitter factors are (10+j)/10, j in -jit..jit).
@@ -136,9 +173,9 @@ Backoff == /\ pc = "bo"
                 last' = [NoLbl EXCEPT !.op = "backoff",
                            !.bo = [att0 |-> a = 0, base |-> Val(10 * c.base), min |-> Val(SMin(Draws(c, a))),
                                    max |-> Val(SMax(Draws(c, a))), bound |-> Val(c.max * (10 + c.jit))]]
-           /\ UNCHANGED <<eps, bundle, pc, i, contacted, result>>
+           /\ UNCHANGED <<eps, bundle, env, pc, i, contacted, result>>
 
-Next == Construct \/ Contact \/ Return \/ Backoff
+Next == OtherConf \/ Construct \/ Contact \/ Return \/ Backoff
 Spec == Init /\ [][Next]_vars
 
 ---------------------------------------------------------------------------
@@ -149,7 +186,7 @@ C17_Contact(l) ==
         contacted[m] \in 1..Len(eps) => ~Good(eps[contacted[m]], bundle)
   /\ l.rpc => l.same                                            \* the request arrives unmodified
 C17_Return(l) ==
-  /\ ~l.pan
+  /\ ~l.pan /\ ~l.hang                                          \* it returns (whatever the request budget), it does not crash
   /\ IF FirstGood = 0
        THEN l.err                                               \* never an empty success
        ELSE /\ ~l.err
@@ -187,7 +224,8 @@ P_C18 == [][C18_Step]_vars
 
 ---------------------------------------------------------------------------
 \* sanity of the design (invariants of the bounded model)
-TypeOK == /\ pc \in {"new", "loop", "returned", "refused", "bo"}
+TypeOK == /\ env.ctx \in {"wide", "tight"} /\ env.loaded \subseteq AllCAs
+          /\ pc \in {"new", "loop", "returned", "refused", "bo"}
           /\ i \in 1..(MaxN + 1) /\ Len(contacted) <= MaxN
           /\ result.done \in BOOLEAN /\ result.err \in BOOLEAN
           /\ Len(result.certs) = Len(result.cm)
